@@ -3,7 +3,7 @@
     Mirrors (names as in the Go code):
       setCloseError / closeLocal / destroyImpl         first close request wins
       handleCloseError                                 classification, error mapping, routing action, CONNECTION_CLOSE
-      applyTransportParameters (idle part)             idleTimeout, keepAliveInterval
+      applyTransportParams (idle part; Go: applyTransport-Params)   idleTimeout, keepAliveInterval
       idleTimeoutStartTime, nextIdleTimeoutTime,
       nextKeepAliveTime, maybeResetTimer               deadline selection
       run(): the branch order after a wake-up          keep-alive PING / handshake timeout / idle timeout
@@ -135,7 +135,7 @@ Definition routing_after (a : action) : Z :=
 
 (** * Timers *)
 
-(** applyTransportParameters (peerIdle = params.MaxIdleTimeout) *)
+(** applyTransportParams (peerIdle = params.MaxIdleTimeout) *)
 Definition applyTP (s : st) (peerIdle : Z) : st :=
   let idle0 := c_maxIdleTimeout (cf s) in
   let idle := if 0 <? peerIdle then Z.min idle0 peerIdle else idle0 in
@@ -197,7 +197,7 @@ Inductive ev :=
 | EvRecv (t : Z)              (* a packet was unpacked: handleUnpacked{Long,Short}HeaderPacket *)
 | EvSentAE (now : Z)          (* an ack-eliciting packet was registered as sent *)
 | EvWake (now pto : Z)        (* the loop passes the timeout checks at [now] *)
-| EvHsComplete (peerIdle : Z) (* handshake complete + applyTransportParameters *)
+| EvHsComplete (peerIdle : Z) (* handshake complete + applyTransportParams *)
 | EvBlocked (mode : Z)        (* triggerSending set the block mode *)
 | EvClose (e : closeError).   (* a close request from anywhere *)
 
